@@ -1,0 +1,22 @@
+//go:build verif
+
+package prolog
+
+//@ ---------------------------------------------------------------- Exec/ExecContext: the text is loaded by the machine's Compile, under the caller's context (C13, C20)
+
+//@ func (*Interpreter).ExecContext
+//@   property C13 C20
+//@   requires i != nil
+//@   nosafety
+//@   bind cerr = engine.(*VM).Compile#1
+//@   at-call engine.(*VM).Compile requires[the-text-is-loaded-into-this-interpreter-s-machine] a0 == &i.VM
+//@   at-call engine.(*VM).Compile requires[under-the-caller-s-context-with-the-caller-s-text-and-placeholder-arguments] a1 == ctx && a2 == query && a3 == args
+//@   ensures[the-error-of-the-load-is-returned-unchanged] called(cerr) && result == cerr
+
+//@ func (*Interpreter).Exec
+//@   property C20
+//@   requires i != nil
+//@   nosafety
+//@   bind r = (*Interpreter).ExecContext#1
+//@   at-call (*Interpreter).ExecContext requires[the-same-interpreter-text-and-placeholder-arguments] a0 == i && a2 == query && a3 == args
+//@   ensures[the-error-of-the-load-is-returned-unchanged] called(r) && result == r
